@@ -8,6 +8,7 @@ EXTENDS Integers, Sequences
 
 CONSTANTS Zero, One, Add(_, _), Sub(_, _), Mul(_, _), Div(_, _), Neg(_), Abs(_), Leq(_, _), FromInt(_)
 
+Fma(fa, fb, fc) == Add(Mul(fa, fb), fc)      \* exact arithmetic: fused = unfused
 A == INSTANCE PolyAlgebra
 Lt(a, b) == Leq(a, b) /\ a # b
 Frac(n, d) == Div(FromInt(n), FromInt(d))
